@@ -1781,3 +1781,55 @@ mod tests {
     info!("writerResult:  {:?}", write_result);
   }
 }
+
+// Verification accessors (see /verif/DESIGN.md). Compiled only with `--cfg rustdds_verif`.
+#[cfg(rustdds_verif)]
+impl Writer {
+  pub(crate) fn verif_handle_cache_cleaning(&mut self) {
+    self.handle_cache_cleaning();
+  }
+
+  pub(crate) fn verif_history_sns(&self) -> Vec<SequenceNumber> {
+    self
+      .history_buffer
+      .sequence_number_to_instant
+      .keys()
+      .copied()
+      .collect()
+  }
+
+  pub(crate) fn verif_history_get(&self, sn: SequenceNumber) -> Option<&CacheChange> {
+    self.history_buffer.get_by_sn(sn)
+  }
+
+  pub(crate) fn verif_first_last(&self) -> (SequenceNumber, SequenceNumber) {
+    (
+      self.history_buffer.first_change_sequence_number(),
+      self.history_buffer.last_change_sequence_number(),
+    )
+  }
+
+  pub(crate) fn verif_reader_proxy(&self, guid: GUID) -> Option<&RtpsReaderProxy> {
+    self.readers.get(&guid)
+  }
+
+  pub(crate) fn verif_readers(&self) -> Vec<GUID> {
+    self.readers.keys().copied().collect()
+  }
+
+  pub(crate) fn verif_match_counts(&self) -> (i32, i32, i32) {
+    (
+      self.readers.len() as i32,
+      self.matched_readers_count_total,
+      self.requested_incompatible_qos_count,
+    )
+  }
+
+  /// (wait_until, readers still pending) of a pending wait_for_acknowledgments
+  pub(crate) fn verif_ack_waiter(&self) -> Option<(SequenceNumber, Vec<GUID>)> {
+    self
+      .ack_waiter
+      .as_ref()
+      .map(|aw| (aw.wait_until, aw.readers_pending.iter().copied().collect()))
+  }
+}
